@@ -195,6 +195,22 @@ Definition si_kp (c : si_cfg) (pv : provider) (p : kp) : kp * option Q :=
 Definition si_run (c : si_cfg) (pv : provider) (kps : list kp) : list (kp * option Q) :=
   map (si_kp c pv) kps.
 
+(* SingleInstancePredictor._make_labeled_frames_from_generator: the instances made of one frame's row of peaks.
+   Pinned tree and HEAD afd312c: always one PredictedInstance, all-NaN when nothing was detected.  `fixed` =
+   behaviour after fix 8463f22 (C12 finding F62: `if np.isnan(pred_instances).all(): continue`): a frame whose
+   points are ALL NaN yields no instance (and no LabeledFrame).  C02 states nothing about such a frame (there
+   is no visible keypoint to report); C12 decides that clause; the model follows the variant the tree has.
+   `integral`: with integral refinement a row (Some origin, None) — all-zero channel passed by threshold 0 — is
+   NaN in the code (0/0 of the refinement, see zero_map_answer). *)
+Definition row_is_nan (integral : bool) (r : kp * option Q) : bool :=
+  match r with
+  | (None, _) => true
+  | (Some _, None) => integral
+  | (Some _, Some _) => false
+  end.
+Definition si_frame_instances (fixed integral : bool) (pts : list (kp * option Q)) : list (list (kp * option Q)) :=
+  if fixed && forallb (row_is_nan integral) pts then [] else [pts].
+
 Definition si_kp_margin (c : si_cfg) (pv : provider) (p : kp) : Q :=
   match p with
   | None => 1 # 2
@@ -448,7 +464,11 @@ Definition rinst (i : td_inst) : rdr := fun k =>
 Definition rresult (r : result) : rdr :=
   match r with
   | RSingle (gx, gy, eff) pts ms =>
-      rlist (fun x => x) [raffn gx; raffn gy; rQ eff; rlist rpt pts; rlist rQ ms]
+      (* last entry: number of instances of the frame after fix 8463f22, without / with integral refinement
+         (before the fix: always 1) *)
+      rlist (fun x => x) [raffn gx; raffn gy; rQ eff; rlist rpt pts; rlist rQ ms;
+                          rlist rnat [length (si_frame_instances true false pts);
+                                      length (si_frame_instances true true pts)]]
   | RTopDown g insts cms =>
       rlist (fun x => x)
         [raffn (tg_cx g); raffn (tg_cy g); rpair rQ rQ (tg_px g); rpair rQ rQ (tg_py g); rQ (tg_eff g);
